@@ -3,7 +3,7 @@ ID = 'C05'
 LEVEL = 'other'
 CONTRACT_MODULES = ['contracts.evals', 'contracts.forecasts']
 CONE = ['csep.utils.stats.poisson_joint_log_likelihood_ndarray', 'lemma:csep.core.forecasts.MarkedGriddedDataSet.marginals']
-ORACLE_MODULES = ['rt.oracles_eval']
+ORACLE_MODULES = ['rt.oracles_eval', 'rt.oracles_contracts']
 BOUNDED = os.path.exists(os.path.join(os.path.dirname(__file__), '..', 'rt', 'bounded_C05.py'))
 FLOAT_MODEL = 'R; loggamma/log uninterpreted'
 TRUSTED = ['numpy.sum / scipy.special.loggamma element-wise', 'pyvc engine, z3 5.1']
